@@ -26,7 +26,11 @@ Other(s) == { [k |-> "neg", a |-> Fld(s, "a")], [k |-> "neg", a |-> Bin("+", Fld
               Call("UPPER", <<Fld(s, "c")>>), Fld(s, "c"), Str("x"),
               Bin("=", Fld(s, "a"), Fld(s, "b")), [k |-> "isnull", a |-> Fld(s, "b")],
               [k |-> "win", f |-> "SUM", args |-> <<Fld(s, "b")>>, part |-> <<Fld(s, "c")>>, ord |-> <<Fld(s, "a")>>],
-              [k |-> "win", f |-> "ROW_NUMBER", args |-> <<>>, part |-> <<>>, ord |-> <<Fld(s, "a")>>] }
+              [k |-> "win", f |-> "ROW_NUMBER", args |-> <<>>, part |-> <<>>, ord |-> <<Fld(s, "a")>>],
+              \* the partition / order lists built by one call per term (sep): over(c).over(a), orderby(b).orderby(a)
+              [k |-> "win", f |-> "SUM", args |-> <<Fld(s, "b")>>, part |-> <<Fld(s, "c"), Fld(s, "a")>>, ord |-> <<Fld(s, "b"), Fld(s, "a")>>, sep |-> TRUE],
+              [k |-> "win", f |-> "SUM", args |-> <<Fld(s, "b")>>, part |-> <<Fld(s, "c"), Fld(s, "b")>>, ord |-> <<>>, sep |-> TRUE],
+              [k |-> "win", f |-> "SUM", args |-> <<Fld(s, "b")>>, part |-> <<Fld(s, "c"), Fld(s, "b")>>, ord |-> <<Fld(s, "a")>>] }
 SelTerms(s) == Arith1(s) \cup Arith2(s) \cup Other(s)
 Atom(s) == {Bin("=", Fld(s, "a"), Num("1")), Bin("<", Fld(s, "b"), Num("2")), Bin("<>", Fld(s, "c"), Str("x")), [k |-> "isnull", a |-> Fld(s, "b")]}
 Crits(s) == Atom(s)
